@@ -18,18 +18,23 @@ class Clock(object):
         self.n = 0
         self.script = []     # datetimes answered first (FIFO)
         self.reads = 0
+        self.frozen = None   # while set, every read answers this instant (the wall clock "reads X" during one operation)
 
     def reset(self, n=0):
         self.n = n
         self.script = []
         self.reads = 0
+        self.frozen = None
 
     def __call__(self):
+        from stix2.utils import STIXdatetime
         self.reads += 1
+        if self.frozen is not None:
+            return STIXdatetime(self.frozen)
         if self.script:
-            return self.script.pop(0)
+            return STIXdatetime(self.script.pop(0))
         self.n += 1
-        return self.base + dt.timedelta(seconds=self.n)
+        return STIXdatetime(self.base + dt.timedelta(seconds=self.n))
 
 
 class UUIDStream(object):
